@@ -6,6 +6,7 @@ package harness
 import (
 	"encoding/json"
 	"fmt"
+	"math"
 	"reflect"
 	"strconv"
 	"strings"
@@ -403,6 +404,42 @@ func sameModuloOrder(a, b, want interface{}) bool {
 }
 
 // predPipe: Search("(A) | (B)", d) == Search(B, Search(A, d)); Extra = {b}.
+// withoutNonFinite copies v with every NaN and infinity replaced by a string, and says whether there was one.
+func withoutNonFinite(v interface{}, depth int) (interface{}, bool) {
+	if depth > 20000 {
+		return v, false
+	}
+	switch t := v.(type) {
+	case float64:
+		if math.IsNaN(t) || math.IsInf(t, 0) {
+			return "non-finite", true
+		}
+	case []interface{}:
+		if t == nil {
+			return v, false
+		}
+		out, any := make([]interface{}, len(t)), false
+		for i, e := range t {
+			var r bool
+			out[i], r = withoutNonFinite(e, depth+1)
+			any = any || r
+		}
+		return out, any
+	case map[string]interface{}:
+		if t == nil {
+			return v, false
+		}
+		out, any := make(map[string]interface{}, len(t)), false
+		for k, e := range t {
+			var r bool
+			out[k], r = withoutNonFinite(e, depth+1)
+			any = any || r
+		}
+		return out, any
+	}
+	return v, false
+}
+
 func predPipe(c Case) (r Result) {
 	a := c.expr()
 	b := c.Extra["b"].(string)
@@ -423,10 +460,17 @@ func predPipe(c Case) (r Result) {
 		return
 	}
 	var step2 libOut
+	nonFinite := false
 	if step1.Err == nil {
 		if !isJSONData(step1.Val) {
-			r.Discard = "precondition:intermediate-not-json"
-			return
+			// an intermediate value that is JSON data but for numbers that left the float64 range
+			// (an overflowing sum): the specification has no such number, so there is no reference
+			// value - but the law itself compares the library with the library, and holds
+			if fc, replaced := withoutNonFinite(step1.Val, 0); !replaced || !isJSONData(fc) || strings.ContainsAny(a+b, "*") || strings.Contains(a+b, "keys(") || strings.Contains(a+b, "values(") {
+				r.Discard = "precondition:intermediate-not-json"
+				return
+			}
+			nonFinite = true
 		}
 		step2 = libSearch(b, step1.Val)
 		if step2.Panic != nil {
@@ -434,6 +478,24 @@ func predPipe(c Case) (r Result) {
 			r.Got = showOut(step2)
 			return
 		}
+	}
+	if !nonFinite && ev.Ambiguous && strings.HasPrefix(ev.Why, "arithmetic overflow") && !strings.ContainsAny(a+b, "*") && !strings.Contains(a+b, "keys(") && !strings.Contains(a+b, "values(") {
+		// the same where the number beyond the float64 range arises and disappears inside A
+		nonFinite = true
+	}
+	if nonFinite {
+		r.class("pipe.non-finite-intermediate")
+		r.Nontrivial = true
+		if (whole.Err != nil) != (step2.Err != nil) {
+			r.Violation = "'A | B' is an error exactly when one of the two steps is: violated (A yields a number beyond the float64 range)"
+			r.Expected, r.Got = fmt.Sprintf("split: step1=%s step2=%s", showOut(step1), showOut(step2)), "composed: "+showOut(whole)
+			return
+		}
+		if whole.Err == nil && show(whole.Val) != show(step2.Val) {
+			r.Violation = "Search('A | B', d) differs from Search(B, Search(A, d)) (A yields a number beyond the float64 range)"
+			r.Expected, r.Got = "split: "+show(step2.Val), "composed: "+show(whole.Val)
+		}
+		return
 	}
 	if ev.Ambiguous {
 		r.Discard = "ambiguous:" + ev.Why
